@@ -480,8 +480,11 @@ func runC05(c *Ctx) {
 	checkChangeVerifiesOldPassphrase(c, "C05-R3")
 	// "any other passphrase fails": the key is stretched from exactly the bytes given, by creation and verification alike
 	c.Borrow(runC17, "C17-R3", "C05-R3", func(k string) bool {
-		return strings.HasPrefix(k, "kdf-gets-exact-passphrase") || strings.HasPrefix(k, "deriveKey-caller-passes-own-passphrase")
+		return strings.HasPrefix(k, "kdf-gets-exact-passphrase") || strings.HasPrefix(k, "deriveKey-caller-passes-own-passphrase") ||
+			strings.HasPrefix(k, "invalid-password-only-on-digest-mismatch") // "the current passphrase always unlocks": refused only when the digest differs
 	})
+	// ... whatever accounts exist: a rewritten account row (rename) keeps the encrypted private key it had
+	checkRowRewrites(c, "C05-R3")
 	checkAccountWithoutPrivateKey(c, "C05-R3")
 	checkPendingDerivationsHaveAccounts(c, "C05-R3")
 	checkPendingQueueOnlyDrainedByUnlock(c, "C05-R3")
